@@ -26,6 +26,7 @@
 #include <algorithm>
 #include <climits>
 #include <deque>
+#include <unordered_map>
 #include <memory>
 
 using namespace vf;
@@ -150,13 +151,26 @@ static Sink * gSink = nullptr;
 enum { FILTER_ID_BASE = 20000, CC_FLAG = 0x10000 };
 static bool polVerdict(int v) { return (v & CC_FLAG) == 0; }
 
+// how often each filter of the case has really been invoked (by filter id); TFilter also counts inside the filter object itself,
+// as a filter with state of its own (a quota, a toggle, a sequence stamp) does: the filter that runs must be the one that was
+// added, with the state its earlier runs left in it - not a copy made for the occasion
+static std::unordered_map<int, int> & filterCallTruth() { static std::unordered_map<int, int> * m = new std::unordered_map<int, int>(); return *m; }
 struct TFilter
 {
 	Counted<K_CB> c;
-	explicit TFilter(int fid) : c(FILTER_ID_BASE + fid) {}
+	mutable int ownCalls;
+	explicit TFilter(int fid) : c(FILTER_ID_BASE + fid), ownCalls(0) {}
 	template <typename ...A>
 	bool operator() (A && ...a) const {
 		if(! c.checkLive("filter-invoke-after-destruction")) return true;
+		{
+			const int truth = ++filterCallTruth()[c.id - FILTER_ID_BASE];
+			if(++ownCalls != truth) {
+				violation("filter:invoked-object-does-not-carry-the-state-of-its-earlier-invocations", "filter " + num(c.id - FILTER_ID_BASE) + " runs for the " + num(truth) + ". time, but the filter object that is invoked has counted " + num(ownCalls) + " invocation(s) of itself: it is not the stored filter (a copy made for this dispatch?)");
+				ownCalls = truth;
+			}
+			else count("filter.own_state_checked");
+		}
 		ArgView w;
 		bindAll(w, std::forward<A>(a)...);
 		return gSink ? gSink->onFilter(c.id - FILTER_ID_BASE, w) : true;
@@ -1293,6 +1307,7 @@ template <typename ObjT>
 static void runCfg(int cfg, const ModeP & mode, Rng & rng, uint64_t caseNo)
 {
 	ledger().resetCase();
+	filterCallTruth().clear();
 	const Caps & caps = kCaps[cfg];
 	const int nops = rng.range(mode.minOps, mode.maxOps);
 	uint64_t h;
@@ -1345,6 +1360,91 @@ typedef WrapListsObj Obj10;
 typedef HomoObj<eventpp::EventDispatcher<int, void(int, std::string), PolPF>, ShIS, true, false> Obj11;
 typedef HomoObj<eventpp::EventQueue<int, void(int, std::string), PolFP>, ShIS, true, true> Obj12;
 
+
+// ------------------------------------------------------------------ adapters on a prototype with a NON-CONST REFERENCE to a class type
+// prototype void(std::string &, int): the dispatched string is one object that every listener sees in turn.  Listeners are plain
+// (reading / appending to the string), argumentAdapter-wrapped functors taking the string BY VALUE (with long), by const
+// reference (with short) or by reference (they may append), and conditionalFunctor-guarded adapters.  An adapted listener
+// receives "those same argument values converted": its by-value parameter is a copy, so neither later listeners nor the caller
+// may see the string changed by it.
+struct RefAdaptFns
+{
+	std::vector<std::string> * got;
+	std::string tag;
+	int kind;
+	void operator() (std::string & s, int v) const { // kinds 0, 1, 4
+		got->push_back(tag + (kind == 4 ? ":adapted-ref:" : ":plain:") + s + ":" + num(v));
+		if(kind != 0) s += "+" + tag;
+	}
+};
+struct RefAdaptByValue { std::vector<std::string> * got; std::string tag; void operator() (std::string s, long v) const { got->push_back(tag + ":adapted-value:" + s + ":" + num((long long)v)); s.assign("consumed"); } };
+struct RefAdaptByCRef { std::vector<std::string> * got; std::string tag; void operator() (const std::string & s, short v) const { got->push_back(tag + ":adapted-cref:" + s + ":" + num((long long)v)); } };
+struct RefAdaptCond { int salt; bool operator() (const std::string & s, int v) const { return ((long long)s.size() + v + salt) % 3 != 0; } };
+
+template <typename Target, typename Add, typename Call>
+static void refAdapterRun(Rng & rng, const char * what, Target & target, Add add, Call call)
+{
+	std::vector<std::string> got, want;
+	const int n = 2 + (int)rng.below(5);
+	std::vector<int> kinds, salts;
+	for(int i = 0; i < n; ++i) {
+		const int kind = (int)rng.below(6), salt = (int)rng.below(3);
+		kinds.push_back(kind); salts.push_back(salt);
+		const std::string tag = "L" + num(i);
+		switch(kind) {
+		case 0: case 1: { RefAdaptFns f = { &got, tag, kind }; add(target, f); break; }
+		case 2: { RefAdaptByValue f = { &got, tag }; add(target, eventpp::argumentAdapter<void (std::string, long)>(f)); break; }
+		case 3: { RefAdaptByCRef f = { &got, tag }; add(target, eventpp::argumentAdapter<void (const std::string &, short)>(f)); break; }
+		case 4: { RefAdaptFns f = { &got, tag, kind }; add(target, eventpp::argumentAdapter<void (std::string &, int)>(f)); break; }
+		default: { RefAdaptByValue f = { &got, tag }; RefAdaptCond c = { salt }; add(target, eventpp::conditionalFunctor(eventpp::argumentAdapter<void (std::string, long)>(f), c)); break; }
+		}
+	}
+	for(int round = 0; round < 2; ++round) {
+		got.clear(); want.clear();
+		std::string arg = rng.chance(1, 2) ? "s" + num((long long)rng.below(100)) : "a-string-that-is-too-long-for-the-small-string-buffer-" + num((long long)rng.below(100000));
+		const int v = rng.chance(1, 2) ? (int)rng.below(100) : (int)rng.below(200000) - 100000;
+		std::string cur = arg;
+		for(int i = 0; i < n; ++i) {
+			const std::string tag = "L" + num(i);
+			switch(kinds[i]) {
+			case 0: want.push_back(tag + ":plain:" + cur + ":" + num(v)); break;
+			case 1: want.push_back(tag + ":plain:" + cur + ":" + num(v)); cur += "+" + tag; break;
+			case 2: want.push_back(tag + ":adapted-value:" + cur + ":" + num((long long)static_cast<long>(v))); break;
+			case 3: want.push_back(tag + ":adapted-cref:" + cur + ":" + num((long long)static_cast<short>(v))); break;
+			case 4: want.push_back(tag + ":adapted-ref:" + cur + ":" + num(v)); cur += "+" + tag; break;
+			default: { RefAdaptCond c = { salts[i] }; if(c(cur, v)) want.push_back(tag + ":adapted-value:" + cur + ":" + num((long long)static_cast<long>(v))); break; }
+			}
+		}
+		call(target, arg, v);
+		count("refadapter.invocations"); count("refadapter.listener_calls", (uint64_t)got.size());
+		if(got != want) {
+			size_t k = 0; while(k < got.size() && k < want.size() && got[k] == want[k]) ++k;
+			violation(std::string("adapter:reference-prototype:") + what + ":listener-did-not-receive-the-dispatched-values", std::string(what) + "<void(std::string &, int)> with " + num(n) + " listeners (plain / argumentAdapter by value, const&, & / conditionalFunctor): call #" + num((long long)k)
+				+ " expected [" + (k < want.size() ? want[k] : std::string("none")) + "] observed [" + (k < got.size() ? got[k] : std::string("none")) + "]");
+			return;
+		}
+		if(arg != cur) { violation(std::string("adapter:reference-prototype:") + what + ":caller's-argument-after-the-dispatch", "the caller's string is \"" + arg + "\" after the dispatch, the listeners' own modifications give \"" + cur + "\""); return; }
+	}
+}
+
+static void refAdapterScenario(Rng & rng)
+{
+	typedef eventpp::CallbackList<void (std::string &, int)> CL;
+	typedef eventpp::EventDispatcher<int, void (std::string &, int)> ED;
+	{
+		CL cl;
+		refAdapterRun(rng, "CallbackList", cl,
+			[](CL & t, const CL::Callback & f) { t.append(f); },
+			[](CL & t, std::string & s, int v) { t(s, v); });
+	}
+	{
+		ED ed;
+		refAdapterRun(rng, "EventDispatcher", ed,
+			[](ED & t, const ED::Callback & f) { t.appendListener(7, f); },
+			[](ED & t, std::string & s, int v) { t.dispatch(7, s, v); });
+	}
+}
+
 static void runCase(uint64_t caseNo, Rng & rng)
 {
 	static ModeP mode = modeOf(ctx().mode);
@@ -1359,6 +1459,7 @@ static void runCase(uint64_t caseNo, Rng & rng)
 	VF_CFG(0) VF_CFG(1) VF_CFG(2) VF_CFG(3) VF_CFG(4) VF_CFG(5) VF_CFG(6) VF_CFG(7) VF_CFG(8) VF_CFG(9) VF_CFG(10) VF_CFG(11) VF_CFG(12)
 	default: skipCase(); break;
 	}
+	if(cfg == 10 && ((VF_CFG_MASK >> 10) & 1) && ! caseHasViolation()) refAdapterScenario(rng);
 }
 
 int main(int argc, char ** argv)
